@@ -689,6 +689,8 @@ def check_c04(tier, seed, log=print):
                                                 what='a str-mode definition whose byte-string patterns only match valid UTF-8 was rejected'),
                           key='utf8rej|%s' % cse['src'])
     run.coverage['acceptance_family'] = fam_stats
+    from props_lib import bump_boundary_probe
+    run.coverage['spans_after_bump'] = bump_boundary_probe(run, tier, log)
     n, dis, bad_defs = tie_pass(run, r)
     report_tie(run, r, {k: v for k, v in bad_defs.items() if corpus[k].utf8}, covered=bad)
     run.coverage.update(dict(evaluations=evals, distinct_nontrivial=len(nontriv),
